@@ -8,7 +8,7 @@
    The claim is partial in the sense of DESIGN §4/§5: goroutines, channels, sockets, timers and the
    race detector are an explicit environment model here and the real thing only in the tie. *)
 From RP Require Import Lib.Base Model.Gorwp Spec.Gorwp
-  Proofs.GorwpDispatch Proofs.GorwpReader Proofs.GorwpSystem.
+  Proofs.GorwpDispatch Proofs.GorwpReader Proofs.GorwpSystem Proofs.GorwpLegacy.
 
 (* ------------------------------------------------------------------ dispatch *)
 (* One message, any maps: the handler invocations are, for each event in order, for each binding kind in
@@ -157,6 +157,17 @@ Theorem c19_no_deadlock : forall unm dec binary b ins sched,
   s_cancel s = false -> work_pending s -> exists c s', In c internal /\ step unm dec s c = Some s'.
 Proof. exact no_deadlock. Qed.
 Print Assumptions c19_no_deadlock.
+
+(* Historical (finding F12, code before 8fd853f): in the one-goroutine loop - handlers and the ticker's ping
+   sending into the queue that only the same goroutine drains - a stuck state IS reachable: one frame with 11
+   events for a handler sending one state each; 11 invocations made, 10 items queued, nothing enabled.
+   Witness schedule by vm_compute; the same history through the harness is corpus/C19/f12-*. *)
+Theorem c19_legacy_loop_deadlock_refuted :
+  exists sched,
+    let s := legacy_run legacy_unm (fun _ => []) (sys0 true legacy_b [RBytes ([11; 0; 0; 0] ++ repeat 7 11)]) sched in
+    stuck legacy_unm (fun _ => []) s /\ length (s_trace s) = 11%nat /\ length (s_to s) = 10%nat.
+Proof. exact legacy_loop_deadlock. Qed.
+Print Assumptions c19_legacy_loop_deadlock_refuted.
 
 (* every step of the reader-push / dispatcher / writer goroutines strictly decreases a measure of the pending work *)
 Theorem c19_internal_step_decreases : forall unm dec s c s',
